@@ -80,6 +80,9 @@ type RWMutex struct {
 	writer  int32
 	readers []int32
 	reg     bool
+	// pendingWriters models sync.RWMutex's writer preference: a Lock call that is waiting excludes new
+	// readers, which is what turns a recursive RLock into a deadlock when a writer arrives in between
+	pendingWriters int32
 }
 
 //go:norace
@@ -99,10 +102,12 @@ func (m *RWMutex) Lock() {
 	}
 	m.register(s)
 	syncPoint(s, -1)
+	m.pendingWriters++
 	for !m.mu.TryLock() {
 		Probe(PLockContended)
 		s.park(StBlockedLock, unsafe.Pointer(m))
 	}
+	m.pendingWriters--
 	m.writer = int32(s.cur.ID)
 }
 
@@ -128,7 +133,7 @@ func (m *RWMutex) RLock() {
 	}
 	m.register(s)
 	syncPoint(s, -1)
-	for !m.mu.TryRLock() {
+	for m.pendingWriters > 0 || !m.mu.TryRLock() {
 		Probe(PLockContended)
 		s.park(StBlockedLock, unsafe.Pointer(m))
 	}
